@@ -69,7 +69,7 @@ func rdataConfined(c *Ctx, r *Report, rule, consequence string) {
 // refuses them with an error, so no walker may dereference one: every method invoked on a section element in the
 // listed functions is behind a nil test of that element.
 func nilEntriesAgree(c *Ctx, r *Report, rule string, fnNames []string) {
-	r.rule(rule, 6, "every method call on an element of Answer / Ns / Extra in the message walkers is behind a nil test of the element")
+	r.rule(rule, 4, "every method call on an element of Answer / Ns / Extra in the message walkers is behind a nil test of the element")
 	n := 0
 	seenHelper := map[string]bool{}
 	for _, name := range fnNames {
@@ -123,6 +123,48 @@ func nilEntriesAgree(c *Ctx, r *Report, rule string, fnNames []string) {
 			g := call.Call.StaticCallee()
 			if g == nil || g.Pkg != fn.Pkg || len(g.Blocks) == 0 {
 				return
+			}
+			// a helper handed a whole section: its calls on the elements of that parameter
+			for i, a := range call.Call.Args {
+				if i >= len(g.Params) {
+					continue
+				}
+				isSec := false
+				for _, s := range []string{"Answer", "Ns", "Extra"} {
+					if ld, ok := a.(*ssa.UnOp); ok && ld.Op == token.MUL && readsField("Msg", s)(ld.X) {
+						isSec = true
+					}
+				}
+				if !isSec {
+					continue
+				}
+				p := g.Params[i]
+				k := 0
+				allInstrs(g, func(in2 ssa.Instruction) {
+					c2, ok := in2.(*ssa.Call)
+					if !ok || !c2.Call.IsInvoke() || typeStr(c2.Call.Value.Type()) != "RR" {
+						return
+					}
+					fromParam := false
+					for v := range sliceOf(c2.Call.Value) {
+						if ia, ok := v.(*ssa.IndexAddr); ok && ia.X == ssa.Value(p) {
+							fromParam = true
+						}
+					}
+					if !fromParam {
+						return
+					}
+					k++
+					construct := fmt.Sprintf("%s:%s#%d", fnDisplay(g), c2.Call.Method.Name(), k)
+					if seenHelper[construct] {
+						return
+					}
+					seenHelper[construct] = true
+					n++
+					r.fn(fnDisplay(g))
+					recv := c2.Call.Value
+					r.check(nonNilAt(g, c2.Block(), func(v ssa.Value) bool { return v == recv }), rule, construct, c.pos(c2.Pos()), "behind a nil test", "%s, which %s hands a section to, calls %s on an entry without testing it for nil: a message with a nil entry, which Len and String skip and Pack refuses with an error, makes this walker panic", fnDisplay(g), name, c2.Call.Method.Name())
+				})
 			}
 			for i, a := range call.Call.Args {
 				if typeStr(a.Type()) != "RR" || i >= len(g.Params) {
